@@ -14,7 +14,7 @@ Record defects := {
   d_id_reuse : bool;        (* id counter re-seeded from surviving directories only (E5) *)
   d_double_close : bool;    (* SSI commit closes the snapshot twice (E7) *)
   d_sizeof_untracked : bool;(* size_of in an SSI write tx records no read (E8) *)
-  d_meta_seqno : bool       (* recovery ignores the meta tree's seqnos (E6b) *)
+  d_seqno_journal : bool    (* recovery ignores journal batch seqnos that left no memtable entry (E14) *)
 }.
 
 (* ---- program operations ---- *)
@@ -584,7 +584,8 @@ Definition recover (cfg : defects) (mode : dbmode) (filters : list (bytes * frul
   let '(sq2, kss2) := fold_left (replay_batch cfg meta mp) active (sq1, kss1) in
   let seqno := fold_left (fun acc k => match t_highest (k_tree k) with
                                        | Some h => N.max acc (h + 1) | None => acc end) kss2 sq2 in
-  let seqno' := if d_meta_seqno cfg then seqno else N.max seqno (meta_seq + 1) in
+  let jmax := fold_left (fun acc b => N.max acc (rb_seqno b + 1)) (concat sealed ++ active) 0 in
+  let seqno' := if d_seqno_journal cfg then seqno else N.max seqno jmax in
   let trk := tr_gc (tr_init seqno') in
   let q := flat_map (fun k => match v_tables (latest (k_tree k)) with
                               | [] => [] | _ => [WCompact (k_id k)] end) kss2 in
